@@ -178,7 +178,75 @@ static void run_C14(const vcase *c, vres *r)
     if (c->aux == 0 || c->aux == 1) { if (pat_struct_rank(c->n, c->n, c->pat) < c->n) { r->status = 2; return; } }
     if (c->aux == 0) run_trsv(c, r); else if (c->aux == 1) run_gstrs(c, r); else run_gemv(c, r, c->aux == 3);
 }
+/* ========================================================================== C19k
+ * Utility / norm kernels on rectangular inputs under the allocation ledger: xlangs (1, inf, max norms), xCompRow_to_CompCol, xCopy_CompCol_Matrix,
+ * xCopy_Dense_Matrix.  Fresh blocks are pre-filled (0xA5), so a result that depends on memory the routine did not initialise differs from the reference;
+ * red zones catch a write past a block. */
+static const int KM[] = { 1, 2, 3, 3, 1, 2, 4, 1, 2, 5, 2, 3 }, KN[] = { 1, 1, 1, 2, 2, 3, 2, 3, 4, 2, 5, 3 };
+#define NKSH 12
+static long koff[NKSH + 1]; static long ktotal(void) { long t = 0; for (int k = 0; k < NKSH; k++) { koff[k] = t; t += 1L << (KM[k] * KN[k]); } koff[NKSH] = t; return t; }
+static void s19k(const int *d, vcase *c) { ktotal(); int k = 0; while (d[0] >= koff[k + 1]) k++; c->m = KM[k]; c->n = KN[k]; c->pat = (uint64_t)(d[0] - koff[k]); c->vals = (int[]){ 15, 7 }[d[1]]; c->type = d[2]; c->fillb = (int[]){ 0xA5, 0x00, 0xFF }[d[3]]; }
+static const family F19K[] = { { "all patterns of 1x1,2x1,3x1,3x2,1x2,2x3,4x2,1x3,2x4,5x2,2x5,3x3 x vals{V15,V7} x type4 x heap fill{A5,00,FF}", 4, { 2 + 4 + 8 + 64 + 4 + 64 + 256 + 8 + 256 + 1024 + 1024 + 512, 2, 4, 3 }, s19k } };
+static long sz_19k(int tier) { (void)tier; return fam_total(F19K, 1); }
+static void dec_19k(int tier, long idx, vcase *c) { (void)tier; fam_decode(F19K, 1, idx, c); }
+static void desc_19k(int tier, char *b, size_t cap) { (void)tier; fam_describe(F19K, 1, b, cap); }
+static const char *const CNT19K[] = { "norm_calls", "transposes", "copies", "rectangular", "empty_rows_or_columns", NULL };
+static void run_C19k(const vcase *c, vres *r)
+{
+    const vf_type *T = vf_T(c->type); int m = c->m, n = c->n; dmat A; make_values(T, m, n, c->pat, c->vals, &A);
+    vf_sparse S; sp_from_dense(&S, T, &A, 0);
+    r->nontrivial = (S.nnz > 0); if (m != n) wk->counters[3]++;
+    /* norms */
+    xr n1 = 0, ni = 0, nm = 0;
+    for (int j = 0; j < n; j++) { xr t = 0; for (int i = 0; i < m; i++) if (DZ(&A, i, j)) { xr a = cabsl(DM(&A, i, j)); t += a; if (a > nm) nm = a; } if (t > n1) n1 = t; }
+    for (int i = 0; i < m; i++) { xr t = 0; for (int j = 0; j < n; j++) if (DZ(&A, i, j)) t += cabsl(DM(&A, i, j)); if (t > ni) ni = t; }
+    static const char *NRM[] = { "1", "O", "I", "M" }; const xr want[] = { n1, n1, ni, nm };     /* the spellings the drivers pass */
+    for (int k = 0; k < 4; k++) {
+        double g = T->langs((char *)NRM[k], &S.A); wk->counters[0]++;
+        xr tol = 8.0L * (m + n) * (xr)T->eps * (want[k] > 0 ? want[k] : 1);
+        if (!(fabsl((xr)g - want[k]) <= tol)) { wk_fail(r, "langs-value", "xlangs(\"%s\") on a %d x %d matrix returned %g, the norm is %Lg", NRM[k], m, n, g, want[k]); goto done; }
+    }
+    /* row-compressed -> column-compressed */
+    {
+        vf_sparse R; sp_from_dense(&R, T, &A, 1);            /* row storage of the same matrix: arrays = CSR of A */
+        void *at = NULL; int_t *ri = NULL, *cp = NULL; wk->counters[1]++;
+        T->CompRow_to_CompCol(m, n, R.nnz, R.nzval, R.ind, R.ptr, &at, &ri, &cp);
+        int bad = 0;
+        if (!cp || (R.nnz && (!ri || !at))) bad = 1;
+        else {
+            if (cp[0] != 0 || cp[n] != R.nnz) bad = 2;
+            for (int j = 0; j < n && !bad; j++) { int_t k = cp[j]; for (int i = 0; i < m; i++) if (DZ(&A, i, j)) { if (k >= cp[j + 1] || ri[k] != i || T->ld(at, k) != DM(&A, i, j)) { bad = 3; break; } k++; } if (!bad && k != cp[j + 1]) bad = 4; }
+        }
+        if (at) SUPERLU_FREE(at); if (ri) SUPERLU_FREE(ri); if (cp) SUPERLU_FREE(cp);
+        sp_destroy(&R);
+        if (bad) { wk_fail(r, "comprow-to-compcol", "xCompRow_to_CompCol on a %d x %d matrix: result is not the column-compressed form of the input (code %d)", m, n, bad); goto done; }
+    }
+    /* copies */
+    {
+        vf_sparse B; sp_from_dense(&B, T, &A, 0); wk->counters[2]++;
+        /* scribble over B, then copy A into it */
+        for (int_t k = 0; k < B.nnz; k++) { T->st(B.nzval, k, -77.0); B.ind[k] = 0; } for (int j = 0; j <= n; j++) B.ptr[j] = 0;
+        T->Copy_CompCol(&S.A, &B.A);
+        int bad = (B.A.nrow != m || B.A.ncol != n || ((NCformat *)B.A.Store)->nnz != S.nnz || memcmp(B.ptr, S.ptr, sizeof(int_t) * (n + 1)) || memcmp(B.ind, S.ind, sizeof(int_t) * S.nnz) || memcmp(B.nzval, S.nzval, T->esz * S.nnz));
+        sp_destroy(&B);
+        if (bad) { wk_fail(r, "copy-compcol", "xCopy_CompCol_Matrix on a %d x %d matrix did not reproduce the source", m, n); goto done; }
+        for (int ldx = m; ldx <= m + 2; ldx += 2) for (int ldy = m; ldy <= m + 3; ldy += 3) {
+            char *X = malloc(T->esz * (size_t)ldx * n + 16), *Y = malloc(T->esz * (size_t)ldy * n + 16);
+            for (int j = 0; j < n; j++) for (int i = 0; i < ldx; i++) T->st(X, i + (long)j * ldx, i < m ? (double _Complex)DM(&A, i, j) : 555.5);
+            for (int j = 0; j < n; j++) for (int i = 0; i < ldy; i++) T->st(Y, i + (long)j * ldy, -9.25);
+            T->Copy_Dense(m, n, X, ldx, Y, ldy);
+            int b2 = 0; for (int j = 0; j < n && !b2; j++) for (int i = 0; i < ldy; i++) { xc y = T->ld(Y, i + (long)j * ldy); if (i < m ? y != T->ld(X, i + (long)j * ldx) : creall(y) != -9.25L) { b2 = 1; break; } }
+            free(X); free(Y);
+            if (b2) { wk_fail(r, "copy-dense", "xCopy_Dense_Matrix(%d x %d, ldx=%d, ldy=%d) copied wrongly or touched padding rows", m, n, ldx, ldy); goto done; }
+        }
+    }
+    { int er = 0; for (int i = 0; i < m; i++) { int any = 0; for (int j = 0; j < n; j++) any |= DZ(&A, i, j); if (!any) er = 1; } if (er) wk->counters[4]++; }
+    r->outcome = fnv(0, &n1, sizeof n1);
+done:
+    sp_destroy(&S);
+}
+static const char RULE19K[] = "every pattern of the listed shapes x value scheme x type x heap fill through xlangs (1, O, I, M), xCompRow_to_CompCol, xCopy_CompCol_Matrix and xCopy_Dense_Matrix; results compared with the definition, allocation ledger and red zones checked by the worker after every case; non-trivial = at least one stored entry";
 static const char RULE14[] = "every (factor source, flag combination) / (matrix, trans spelling, alpha, beta) of the listed products is executed on the real kernels; solves are judged by their componentwise residual against the dense stored triangle, products against alpha*op(A)*x+beta*y in extended precision (y pre-filled with NaN when beta=0); non-trivial = order >= 2 / at least one stored entry";
-const vf_check vf_checks[] = { { "C14", sz_14, dec_14, run_C14, CNT, RAT, RULE14, desc_14 } };
-const int vf_nchecks = 1;
+const vf_check vf_checks[] = { { "C14", sz_14, dec_14, run_C14, CNT, RAT, RULE14, desc_14 }, { "C19k", sz_19k, dec_19k, run_C19k, CNT19K, RAT, RULE19K, desc_19k } };
+const int vf_nchecks = 2;
 int main(int argc, char **argv) { return wk_main(argc, argv); }
